@@ -273,6 +273,60 @@ pub fn check_labels(text: &str, planted: &Planted, gates: &Gates) -> Result<bool
     Ok(true)
 }
 
+/// line / column shown by the CLI (`file:L:C`) and by LSP (`range.start`) for the planted fault's
+/// diagnostic equal the recomputed position of the label start found in-process
+fn check_shown_positions(text: &str, planted: &Planted) -> Result<(), (String, String)> {
+    use crate::drive::*;
+    let file = "c05c.st";
+    let fid = FileId::from_string(file);
+    let lib = match crate::panicx::catch(|| parse_program(text, &fid, &ParseOptions::default())) {
+        Ok(Ok(l)) => l,
+        _ => return Ok(()),
+    };
+    let ds = match crate::panicx::catch(|| analyze(&[&lib])) {
+        Ok(Err(ds)) => ds,
+        _ => return Ok(()),
+    };
+    let want = planted.kind.code();
+    let d = match ds.iter().find(|d| d.code == want) {
+        Some(d) => d,
+        None => return Ok(()),
+    };
+    let pos = PosIndex::new(text);
+    let (line, _, col_chars, col_utf16) = pos.pos(d.primary.location.start);
+    // command line
+    let dir = Scratch::new("c05");
+    let p = dir.write("c05c.st", text.as_bytes()).to_string_lossy().to_string();
+    let out = run_cli(&["check".to_string(), p.clone()], None);
+    if !out.timed_out {
+        let shown: Vec<(usize, usize)> = parse_cli_diags(&out.stderr).into_iter().filter(|x| x.code == want && x.file.is_some()).map(|x| (x.line, x.col)).collect();
+        if !shown.is_empty() && !shown.contains(&(line + 1, col_chars + 1)) {
+            return Err(("cli-position".into(), format!("{}: label starts at line {} column {} (1-based), the command line shows {:?}", want, line + 1, col_chars + 1, shown)));
+        }
+    }
+    // language server
+    let uri = format!("file://{}", p);
+    let run = lsp_run(&[lsp_initialize(0), lsp_initialized(), lsp_did_open(&uri, 1, text), lsp_shutdown(1), lsp_exit()]);
+    if !run.timed_out {
+        for f in &run.frames {
+            if f["method"] == "textDocument/publishDiagnostics" {
+                let shown: Vec<(u64, u64)> = f["params"]["diagnostics"]
+                    .as_array()
+                    .cloned()
+                    .unwrap_or_default()
+                    .iter()
+                    .filter(|x| x["code"] == want)
+                    .map(|x| (x["range"]["start"]["line"].as_u64().unwrap_or(u64::MAX), x["range"]["start"]["character"].as_u64().unwrap_or(u64::MAX)))
+                    .collect();
+                if !shown.is_empty() && !shown.contains(&(line as u64, col_utf16 as u64)) && !shown.contains(&(line as u64, col_chars as u64)) {
+                    return Err(("lsp-position".into(), format!("{}: label starts at line {} character {} (0-based), publishDiagnostics shows {:?}", want, line, col_chars, shown)));
+                }
+            }
+        }
+    }
+    Ok(())
+}
+
 fn with_oscat(text: &str, t: &mut Tape, gates: &Gates) -> String {
     let mut body = String::new();
     let n = t.count(0, 6);
@@ -356,7 +410,7 @@ fn check_tape_ab(tape: &[u8], gates: &Gates, stats: &mut Stats, counting: bool) 
     Ok(())
 }
 
-fn check_tape_c(tape: &[u8], gates: &Gates, stats: &mut Stats, counting: bool) -> Result<(), Failure> {
+fn check_tape_c(tape: &[u8], gates: &Gates, stats: &mut Stats, counting: bool, shown_budget: &std::sync::atomic::AtomicI64) -> Result<(), Failure> {
     let profile = Profile::default();
     let mut t = Tape::new(tape);
     let unit = gen_unit(&mut t, gates, &profile);
@@ -387,7 +441,12 @@ fn check_tape_c(tape: &[u8], gates: &Gates, stats: &mut Stats, counting: bool) -
                 stats.sample(4, || json!({"faulty": tx, "marker": planted.marker}));
             }
         }
+        let judged = matches!(r, Ok(true));
         r.map_err(|(k2, d)| Failure::new("diagnostic-labels", &k2, d, json!({"text": text, "fault": format!("{:?}", kind), "marker": planted.marker})))?;
+        if counting && judged && shown_budget.fetch_sub(1, std::sync::atomic::Ordering::Relaxed) > 0 {
+            stats.class("c.shown-positions(cli+lsp)");
+            check_shown_positions(&text, &planted).map_err(|(k2, d)| Failure::new("shown-positions", &k2, d, json!({"text": text, "fault": format!("{:?}", kind), "code": kind.code()})))?;
+        }
     }
     if counting {
         stats.absorb_gates(gates);
@@ -405,7 +464,7 @@ pub fn run(ctx: &Ctx) -> i32 {
         ctx.tier,
         ctx.seed,
         "exploration",
-        "(a) tokens of generated programs in wild spelling (comments before tokens on a line, multi-line comments, CRLF, non-ASCII, OSCAT headers, one unlexable run) must tile the source: text == source[span], contiguous except reported P0031 ranges, char boundaries, line = number of LF before the start, column = distance from the line start in ONE unit (bytes, chars or UTF-16) for the whole file; (b) every Id reached by the dsl Visitor carries the file id and a span whose text is its spelling and which is an identifier lexeme of the harness' own lexeme table, and every identifier lexeme is the span of some Id; (c) units with one planted fault (C02 planter): every label lies inside the file on char boundaries and the primary label of the planted fault's diagnostic covers the marker the planter wrote (name-carrying codes: exactly an occurrence of the name; call-site codes: the invocation). Non-trivial (a): comment / non-ASCII / CRLF / lexical error present; (c) always. Distinct by text hash.",
+        "(a) tokens of generated programs in wild spelling (comments before tokens on a line, multi-line comments, CRLF, non-ASCII, OSCAT headers, one unlexable run) must tile the source: text == source[span], contiguous except reported P0031 ranges, char boundaries, line = number of LF before the start, column = distance from the line start in ONE unit (bytes, chars or UTF-16) for the whole file; (b) every Id reached by the dsl Visitor carries the file id and a span whose text is its spelling and which is an identifier lexeme of the harness' own lexeme table, and every identifier lexeme is the span of some Id; (c) units with one planted fault (C02 planter): every label lies inside the file on char boundaries and the primary label of the planted fault's diagnostic covers the marker the planter wrote (name-carrying codes: exactly an occurrence of the name; call-site codes: the invocation); for a sample of them the `file:L:C` printed by `ironplcc check` and the range.start of the LSP publishDiagnostics equal the recomputed line / column of that label start. Non-trivial (a): comment / non-ASCII / CRLF / lexical error present; (c) always. Distinct by text hash.",
     );
     let gates = ctx.gates_for("C05");
     let off = gates.off_list();
@@ -415,9 +474,10 @@ pub fn run(ctx: &Ctx) -> i32 {
         check_tape_ab(tape, &g, stats, counting)
     });
     rep.add(out);
+    let shown_budget = std::sync::atomic::AtomicI64::new(ctx.tier.pick(300, 5000));
     let out = run_tapes("C05c", ctx.seed, ctx.threads, cases / 2, 900, |tape, stats, counting| {
         let g = Gates::with_off(off.clone());
-        check_tape_c(tape, &g, stats, counting)
+        check_tape_c(tape, &g, stats, counting, &shown_budget)
     });
     rep.add(out);
     rep.replay_witnesses(&ctx.findings, &|w| witness(w, &Gates::all_on()));
@@ -458,7 +518,8 @@ pub fn replay(ctx: &Ctx, v: &Value) -> i32 {
             let tape: Vec<u8> = v["tape"].as_array().map(|a| a.iter().map(|x| x.as_u64().unwrap_or(0) as u8).collect()).unwrap_or_default();
             let mut s = Stats::default();
             let r1 = check_tape_ab(&tape, &gates, &mut s, false);
-            let r2 = check_tape_c(&tape, &gates, &mut s, false);
+            let b = std::sync::atomic::AtomicI64::new(1_000_000);
+            let r2 = check_tape_c(&tape, &gates, &mut s, true, &b);
             r1.and(r2).map_err(|f| format!("{}: {}", f.kind, f.detail))
         }
     };
